@@ -25,6 +25,16 @@ Streams
              (functions with 11..16 call sites with distinct argument classes, self- / mutually
              recursive functions, helper calls; gen/c16_dynparams.py, corpus/C16): every ordered
              pair of parameter queries, random longer sessions
+  memosession the same oracle on programs in which a value reaches a name through a memo in every way
+             that works here (gen/c16_memo.py: sphinx / epydoc docstring types, plain and string
+             annotations, decorators, call-site dependent results, generators, comprehensions,
+             properties, class / instance attributes via several instances, special methods,
+             closures, a second module, pytest fixtures), every definition used at several sites;
+             sessions of DISTINCT queries at different sites (ordered pairs, permutations of up to 8);
+             after every query the real memo is scanned for remembered one-shot iterators
+  memoreplay / memostack  the real memo decorators on a function producing 0..n-1, read by successive
+             consumers that take k_i elements vs Model.Determinism.Stored.reads; random decorator
+             stacks: does a memo of the stack remember a one-shot iterator vs stackReplayable
   fault      an exception is injected at the k-th inference step of a query; afterwards all
              switches must have their defaults and the recursion stacks must be empty
 
@@ -46,6 +56,7 @@ import common
 from common import short
 from gen import c15_programs as P
 from gen import c16_dynparams as DP
+from gen import c16_memo as MP
 from props import c15 as C15
 
 MODELS = ['Recursion', 'Determinism']
@@ -67,6 +78,13 @@ MANIFEST = dict(
          '(dyn_bracket_transcribed; dyn_depth_zero_at_every_boundary; top_level_search_sees_all_sites; '
          'kernel-checked witness for the increment moved before the with block: 12 call sites fresh, 10 after a '
          'self-recursive lookup); '
+         'every function of jedi/ under a memo decorator (table extracted by walking all of jedi/) that hands out a '
+         'one-shot iterator has a materialising decorator (to_list, to_tuple, iterator_to_value_set) between itself '
+         'and the memo, or the memo is one of the two that consume generators themselves '
+         '(memo_values_are_replayable_partial: all but the known pytest-plugin entry; memo_stack_order_matters); a '
+         'memo holding a materialised container or the (generator, list) pair of the generator cache answers every '
+         'reader the same (materialised_memo_replayable, generator_cache_replayable), one holding the generator '
+         'itself does not (one_shot_memo_not_replayable); '
          'on acyclic dependency graphs the memoised evaluator answers independently of earlier queries '
          '(memo_order_independent_acyclic; 2-cycle witness). Tie: translator + correspondence on real Name '
          'objects and real primitives + direct oracles (hash seeds, iteration orders, query permutations).',
@@ -229,10 +247,33 @@ NESTED_CAUSE = ('call-site search memoised at nested depth (fewer call sites); d
                 'every query boundary')
 
 
-def dyn_cause(boundary_bad, depths, blocked=0):
-    """why answers that involve the dynamic parameter search can differ between histories"""
+ONE_SHOT_CAUSE = 'memo entry holds a one-shot iterator: '
+# memoised functions known to store their generator as it is (known finding
+# C16-pytest-modules-generator-memoised); everything else that shows up breaks the tie of the
+# theorem memo_values_are_replayable
+KNOWN_ONE_SHOT = {'jedi.plugins.pytest._iter_pytest_modules'}
+
+
+def memo_one_shot(script):
+    """names of the memoised functions for which InferenceState.memoize_cache holds a one-shot
+    iterator (a generator object, map/filter/zip object ...) as the remembered VALUE: whoever reads
+    the entry first consumes it, every later reader of the same key sees what is left.  (The tuple
+    (generator, list) of inference_state_method_generator_cache is not one: it replays the list.)"""
+    out = set()
+    for fn, memo in list(script._inference_state.memoize_cache.items()):
+        for v in list(memo.values()):
+            if hasattr(type(v), '__next__'):      # on the type: ValueSet answers every getattr
+                out.add('%s.%s' % (getattr(fn, '__module__', '?'), getattr(fn, '__qualname__', repr(fn))))
+                break
+    return sorted(out)
+
+
+def dyn_cause(boundary_bad, depths, blocked=0, one_shot=()):
+    """why answers that involve the dynamic parameter search / the memo can differ between histories"""
     if any('dynamic_params_depth' in b for b in boundary_bad):
         return LEAK_CAUSE
+    if one_shot:
+        return ONE_SHOT_CAUSE + ', '.join(one_shot)
     if blocked:
         return BLOCKED_CAUSE
     if any(d >= 2 for d in depths):
@@ -512,6 +553,94 @@ def stream_machine(ctx, reqs, cap, factor):
                            short({'case': case, 'state': impl, 'dynamic_params_depth after each query': boundary}, 1200))
         cases.append((('machine', case), impl))
         reqs.append({'op': 'session', 'cap': cap, 'factor': factor, 'queries': queries})
+    return cases
+
+
+# ----------------------------------------------------------------- stream: memoreplay
+
+class MemoObj:
+    """an object every memo decorator accepts as first argument"""
+    def __init__(self):
+        self.inference_state = C15.FakeState()
+        self.memoize_cache = self.inference_state.memoize_cache
+
+
+def real_decorator(name):
+    from jedi.inference import cache as icache
+    from jedi import cache as tcache, debug
+    from jedi.inference import utils
+    from jedi.inference.base_value import iterator_to_value_set
+    table = {
+        'inference_state_method_cache': lambda: icache.inference_state_method_cache(),
+        'inference_state_function_cache': lambda: icache.inference_state_function_cache(),
+        'memoize_method': lambda: tcache.memoize_method,
+        'inference_state_method_generator_cache': lambda: icache.inference_state_method_generator_cache(),
+        'to_list': lambda: utils.to_list, 'to_tuple': lambda: utils.to_tuple,
+        'iterator_to_value_set': lambda: iterator_to_value_set,
+        'increase_indent': lambda: debug.increase_indent,
+    }
+    return table[name]()
+
+
+def decorate(decorators, one_shot, n):
+    """the real decorators (outermost first) on a function producing 0 .. n-1"""
+    if one_shot:
+        def f(obj):
+            for i in range(n):
+                yield i
+    else:
+        def f(obj):
+            return list(range(n))
+    for d in reversed(decorators):
+        f = real_decorator(d)(f)
+    return f
+
+
+def stream_memoreplay(ctx, reqs):
+    """(a) a memoised function read by successive consumers that take k_i elements each, with the real
+    decorators, vs Model.Determinism.Stored.reads; (b) random decorator stacks: do two complete reads
+    give the same, complete result? vs Model.Determinism.stackReplayable (the predicate of the
+    theorem memo_values_are_replayable)"""
+    rng = ctx.subrng('memoreplay')
+    cases = []
+    kinds = {'plain': ['inference_state_method_cache'], 'function_cache': ['inference_state_function_cache'],
+             'memoize_method': ['memoize_method'], 'to_list': ['inference_state_method_cache', 'to_list'],
+             'to_tuple': ['memoize_method', 'to_tuple'], 'generator_cache': ['inference_state_method_generator_cache']}
+    model_kind = {'plain': 'plain', 'function_cache': 'plain', 'memoize_method': 'plain', 'to_list': 'materialised',
+                  'to_tuple': 'materialised', 'generator_cache': 'generator_cache'}
+    for i in range(ctx.size(150, 2000)):
+        kind = rng.choice(sorted(kinds))
+        n = rng.randint(0, 5)
+        reads = [rng.randint(0, n + 1) for _ in range(rng.randint(1, 4))]
+        f = decorate(kinds[kind], True, n)
+        obj = MemoObj()
+        impl = [list(itertools.islice(f(obj), k)) for k in reads]
+        case = {'kind': kind, 'n': n, 'reads': reads}
+        cases.append((('memoreplay', case), impl))
+        reqs.append({'op': 'memo', 'kind': model_kind[kind], 'n': n, 'reads': reads})
+    names = ['inference_state_method_cache', 'inference_state_function_cache', 'memoize_method',
+             'inference_state_method_generator_cache', 'to_list', 'to_tuple', 'iterator_to_value_set', 'increase_indent']
+    for i in range(ctx.size(150, 2000)):
+        decorators = [rng.choice(names) for _ in range(rng.randint(1, 3))]
+        one_shot = rng.random() < 0.7
+        n = rng.randint(1, 4)
+        obj = MemoObj()
+        try:
+            f = decorate(decorators, one_shot, n)
+            got = [sorted(f(obj)) for _ in range(3)]
+            # the mechanism the theorem speaks about: no memo of the stack remembers a one-shot iterator
+            # (an outer generator-aware memo can hide an inner one that does) - and then every read is complete
+            stored = [v for memo in list(obj.memoize_cache.values()) + list(obj.__dict__.get('_memoize_method_dct', {}).values())
+                      for v in memo.values()]
+            holds_one_shot = any(hasattr(type(v), '__next__') for v in stored)
+            impl = not holds_one_shot
+            if impl and got != [list(range(n))] * 3:
+                ctx.tie_broken('memostack: replayable memo values but different reads', short({'decorators': decorators, 'reads': got}))
+        except TypeError:
+            impl = False        # a generator-aware memo on a function that returns no iterator
+        case = {'decorators': decorators, 'one_shot': one_shot, 'n': n}
+        cases.append((('memostack', case), impl))
+        reqs.append({'op': 'stack', 'decorators': decorators, 'one_shot': one_shot})
     return cases
 
 
@@ -826,8 +955,9 @@ def ask(script, qq):
 
 class Fresh:
     """answers of fresh Scripts, one Script per query"""
-    def __init__(self, src):
+    def __init__(self, src, mk=None):
         self.src = src
+        self.mk = mk
         self.ans = {}
         self.depths = {}
         self.blocked = {}
@@ -835,7 +965,7 @@ class Fresh:
     def __call__(self, qq):
         if qq not in self.ans:
             import jedi
-            script = jedi.Script(self.src)
+            script = self.mk() if self.mk else jedi.Script(self.src)
             self.ans[qq] = ask(script, qq)
             self.depths[qq] = SearchHook.depths(script)
             self.blocked[qq] = SearchHook.blocked(script)
@@ -846,13 +976,14 @@ SESSION_HOW = ('s = jedi.Script(source); answers = [s.<query>(line, column) for 
                'compare the answer at index `at` with jedi.Script(source).<query>(line, column) on a fresh Script')
 
 
-def run_sessions(ctx, stream, label, src, sessions, fresh, probes, cap, probed, extra_case=None):
+def run_sessions(ctx, stream, label, src, sessions, fresh, probes, cap, probed, extra_case=None, mk=None):
     """the direct oracle of the second sentence of C16: every answer given in a session on one Script
     equals the answer of a fresh Script; after every query the per-query state of the real
     InferenceState is checked (the mechanism query_boundary_inv is about)"""
     import jedi
+    mk = mk or (lambda: jedi.Script(src))
     for sess in sessions:
-        script = jedi.Script(src)
+        script = mk()
         internal = False
         boundary_bad = []
         for at, qq in enumerate(sess):
@@ -874,7 +1005,7 @@ def run_sessions(ctx, stream, label, src, sessions, fresh, probes, cap, probed, 
                     probed.add((label, tuple(bad)))
                     prefix = [list(x) for x in sess[:at + 1]]
                     for pq in probes:
-                        s2 = jedi.Script(src)
+                        s2 = mk()
                         for qq2 in sess[:at + 1]:
                             ask(s2, qq2)
                         a = ask(s2, pq)
@@ -893,6 +1024,13 @@ def run_sessions(ctx, stream, label, src, sessions, fresh, probes, cap, probed, 
                 if ans[0] != 'ValueError':
                     # C01's statement; only counted here
                     ctx.count('raised', (label, qq), nontrivial=False, bucket='out-of-range:%s' % ans[0])
+            one_shot = memo_one_shot(script)
+            if set(one_shot) - KNOWN_ONE_SHOT:
+                # the mechanism the theorem memo_values_are_replayable is about no longer holds on the
+                # real memo; whether the property fails is decided by the answers compared below
+                ctx.tie_broken('state:memo_values_are_replayable (%s)' % stream,
+                               short({'label': label, 'session': [list(x) for x in sess], 'at': at,
+                                      'memoised one-shot iterators': one_shot}, 800))
             if not same_answer(ctx, stream, (label, tuple(sess), at), ans, exp):
                 counts = script._inference_state.inferred_element_counts
                 worst = max(counts.values() or [0])
@@ -902,7 +1040,7 @@ def run_sessions(ctx, stream, label, src, sessions, fresh, probes, cap, probed, 
                        'inferred_element_counts_max': worst,
                        'cap_state': 'inferred_element_counts>cap' if worst > cap else 'below-cap',
                        'history': 'after-internal-exception' if internal else 'no-internal-exception',
-                       'cause': dyn_cause(boundary_bad, depths, blocked),
+                       'cause': dyn_cause(boundary_bad, depths, blocked, one_shot),
                        'search_depths_max': max(depths or [0]), 'blocked_lookups': blocked,
                        'boundary_state': sorted(set(boundary_bad))}
                 ctx.fail(stream, 'answer on a used Script differs from the answer of a fresh Script: '
@@ -991,6 +1129,70 @@ def stream_dynsession(ctx, cap):
 
 # ----------------------------------------------------------------- stream: fault
 
+class MemoProject:
+    """the files of one c16_memo program in a directory of their own, with a jedi.Project on it"""
+    def __init__(self, base, n, prog):
+        import jedi
+        self.dir = os.path.join(base, 'p%d' % n)
+        os.makedirs(self.dir)
+        for name, text in prog['files'].items():
+            with open(os.path.join(self.dir, name), 'w', encoding='utf-8') as f:
+                f.write(text)
+        self.project = jedi.Project(self.dir)
+        self.main = prog['main']
+        self.path = os.path.join(self.dir, 'main.py')
+
+    def __call__(self):
+        import jedi
+        return jedi.Script(self.main, path=self.path, project=self.project)
+
+
+def memo_sessions(ctx, rng, prog, quick):
+    """sessions of DISTINCT queries at different use sites of the same definitions"""
+    by = {}
+    for (f, i, k, kind, q, l, c) in prog['queries']:
+        by.setdefault((f, i), {}).setdefault(k, {})[kind] = (q, l, c)
+    sessions = []
+    for (f, i), uses in sorted(by.items()):
+        ks = sorted(uses)
+        for a in ks:
+            for b in ks:
+                if a == b:
+                    continue
+                cand = [[uses[a]['value'], uses[b]['value']],
+                        [uses[a]['attr'], uses[b]['value']],
+                        [uses[a].get('attr-complete', uses[a]['attr']), uses[b]['attr']],
+                        [uses[a]['value'], uses[a]['value'], uses[b]['attr'], uses[b]['value']]]
+                sessions += [cand[0], rng.choice(cand[1:])] if quick else cand
+    allq = [(q, l, c) for (f, i, k, kind, q, l, c) in prog['queries']]
+    for _ in range(1 if quick else 6):
+        perm = rng.sample(allq, min(8, len(allq)))      # a permutation of up to 8 distinct queries
+        sessions.append(perm)
+        sessions.append(list(reversed(perm)))
+    return sessions
+
+
+def stream_memosession(ctx, cap, pcache):
+    """every way a value reaches a name through a memo (gen/c16_memo.py), each definition used at
+    several sites; sessions of distinct queries on one Script vs a fresh Script per query; after every
+    query the real memo is scanned for remembered one-shot iterators"""
+    rng = ctx.subrng('memosession')
+    specs = [('memo-cover-%d' % i, sp) for i, sp in enumerate(MP.coverage_specs())]
+    for i in range(ctx.size(3, 60)):
+        specs.append(('memo-%d' % i, MP.gen_spec(rng, with_pytest=rng.random() < 0.2)))
+    base = os.path.join(pcache.dir, 'memo-programs')
+    os.makedirs(base)
+    probed = set()
+    for n, (label, spec) in enumerate(specs):
+        prog = MP.build(spec)
+        mk = MemoProject(base, n, prog)
+        fresh = Fresh(prog['main'], mk)
+        sessions = memo_sessions(ctx, rng, prog, ctx.quick)
+        probes = [(q, l, c) for (f, i, k, kind, q, l, c) in prog['queries'] if kind == 'value']
+        run_sessions(ctx, 'memosession', label, prog['main'], sessions, fresh, probes, cap, probed,
+                     extra_case={'files': prog['files'], 'families': sorted({f for f, _ in spec})}, mk=mk)
+
+
 class Injected(BaseException):
     pass
 
@@ -1075,6 +1277,14 @@ def compare(ctx, cases, answers):
             dup = len(key[1]) - len(impl) if impl and impl[0] != 'EXC' else 0
             ctx.count('sort', key[1], nontrivial=len(key[1]) > 1, bucket='n=%d/dups=%d' % (min(len(key[1]), 5), min(dup, 3)),
                       sample={'names': key[1], 'result_kinds': impl})
+        elif stream == 'memoreplay':
+            c = key[1]
+            ctx.count('memoreplay', c, nontrivial=len(c['reads']) > 1 and c['n'] > 0,
+                      bucket='%s/reads=%d' % (c['kind'], len(c['reads'])), sample={'case': c, 'reads_see': impl})
+        elif stream == 'memostack':
+            c = key[1]
+            ctx.count('memostack', c, nontrivial=True, bucket='replayable=%s/one_shot=%s' % (impl, c['one_shot']),
+                      sample={'case': c, 'replayable': impl})
         else:
             ctx.count('machine', key[1], nontrivial=any(r for r, s in impl['queries']) or any(not all(s) for r, s in impl['queries']),
                       bucket='q=%d' % min(len(impl['queries']), 9), sample={'case': key[1], 'result': impl})
@@ -1114,24 +1324,26 @@ def run(ctx):
             walls.append('%s=%.1fs' % (name, time.time() - t0))
     cases += timed('sort', stream_sort, ctx, reqs)
     cases += timed('machine', stream_machine, ctx, reqs, cap, factor)
+    cases += timed('memoreplay', stream_memoreplay, ctx, reqs)
     with PrivateCache() as pcache, SearchHook():
         timed('eqclass', stream_eqclass, ctx)
         timed('order', stream_order, ctx)
         timed('session', stream_session, ctx, cap)
         timed('dynsession', stream_dynsession, ctx, cap)
+        timed('memosession', stream_memosession, ctx, cap, pcache)
         try:
             timed('fault', stream_fault, ctx)
         except common.TieBroken as e:
             ctx.tie_broken('hook:' + e.what, e.detail)
         timed('subproc', stream_subproc, ctx, pcache)
-    ctx.notes.append('wall per stream: ' + ' '.join(walls))
     ctx.notes.append('string hash randomisation of this (parent) process: %s; the subprocesses of stream subproc run under '
                      'fixed PYTHONHASHSEED values' % ('on' if sys.flags.hash_randomization else 'off'))
     if ctx.model_ok:
-        answers = common.run_driver_parallel('C16', reqs)
+        answers = timed('lean-driver', common.run_driver_parallel, 'C16', reqs)
         compare(ctx, cases, answers)
     else:
         ctx.notes.append('model did not build: correspondence skipped, oracle only')
+    ctx.notes.append('wall per stream: ' + ' '.join(walls))
     ctx.obligations['assumptions'] = [
         'CPython set/frozenset iteration order is universally quantified in the theorems (any order, any '
         'representative); the oracles sample it: forced orders in-process, PYTHONHASHSEED and allocation noise '
@@ -1143,6 +1355,11 @@ def run(ctx):
         'memoised results of the dynamic parameter search are not modelled (two known findings: recursion default '
         'memoised, search truncated at nested depth); the model covers the depth counter and the recursion guard, '
         'stream dynsession compares real answers',
+        'memo table: "hands out a one-shot iterator" is decided syntactically per function (yield / yield from, '
+        'return of a generator expression or of map/filter/zip/iter/chain); a function that returns the result of '
+        'calling another generator function is not seen statically - the scan of the real memo after every query of '
+        'the session streams (memo_one_shot) is what covers it; undecorated ad-hoc caches (dict attributes) are not '
+        'in the table',
         'flow_analysis_enabled / is_analysis blocks are inline try/finally statements (no callable primitive): '
         'checked by fault injection on real queries (stream fault), not by the machine correspondence',
     ]
@@ -1152,15 +1369,20 @@ def replay(ctx, payload):
     import jedi
     inp = payload['input']
     if 'session' in inp:
-        with PrivateCache(), SearchHook():
-            s = jedi.Script(inp['source'])
+        with PrivateCache() as pcache, SearchHook():
+            mk = lambda: jedi.Script(inp['source'])
+            if inp.get('files'):
+                # a c16_memo program: its files in a directory of their own, main.py given as text
+                mk = MemoProject(pcache.dir, 0, {'files': inp['files'], 'main': inp['source']})
+            s = mk()
             ndiff = 0
             for i, qq in enumerate(inp['session']):
                 a = ask(s, tuple(qq))
-                f = ask(jedi.Script(inp['source']), tuple(qq))
+                f = ask(mk(), tuple(qq))
                 n = lambda r: '%d results' % len(r[1]) if r[0] == 'ok' else r[0]
                 print(i, qq, 'used Script:', n(a), short(a, 300), '| fresh Script:', n(f), short(f, 300),
                       '' if a == f else '   <-- DIFFERS (%s)' % classify(f, a))
+                print('   memoised one-shot iterators:', memo_one_shot(s) or 'none')
                 print('   state after the query:', state_defaults(s) or 'defaults',
                       '| dynamic searches so far at depths', SearchHook.depths(s), '| blocked lookups', SearchHook.blocked(s))
                 ndiff += a != f
